@@ -90,7 +90,12 @@ def run(ctx, rs: RuleSet, prop: str, repo: str, seed: int) -> Dict:
     import tempfile
     for mode, what in (('alpha', 'locals renamed'),
                        ('flip', 'two-armed ifs flipped'),
-                       ('guard', 'else branches made guard clauses')):
+                       ('guard', 'else branches made guard clauses'),
+                       ('notemp', 'normal form: temporaries substituted'),
+                       ('comp', 'normal form: accumulator loops as '
+                        'comprehensions'),
+                       ('inline', 'normal form: unknown private helpers '
+                        'expanded')):
       tmp = tempfile.mkdtemp(prefix='fdlstatic-alpha-')
       try:
         n = alpha.make_variant(tmp, mode)
